@@ -52,6 +52,9 @@ def nested_family(p, n, rnd):
     return out
 
 
+BIG_PROG = {"opts": [{"names": "o%02d" % i, "flag": i % 3 != 0} for i in range(80)], "args": ["X"]}
+
+
 def run(tier, wd):
     rep = core.Report(PROP, tier, "model_checking")
     binpath = core.build_harness()
@@ -90,7 +93,8 @@ def run(tier, wd):
     rep.cov["opmodel_max_apply_calls"] = max(c["steps"] for c in opcases) if opcases else 0
     # (2) arbitrary byte strings and spec-alphabet strings as specs: compile through Run
     cases, kinds = [], []
-    alpha = list(" \t[]()|.-=<>") + list("AXOPTIONSabeo18_#") + ["...", "--", "=<v>", "-a", "OPTIONS", "--out", "X", "Y", "[", "]", "(", ")"]
+    alpha = list(" \t[]()|.-=<>") + list("AXOPTIONSabeo18_#") + ["...", "--", "=<v>", "-a", "OPTIONS", "--out", "X", "Y", "[", "]", "(", ")"] + \
+        ["\u00e9", "\u2026", "\u00ff", "X\u2026", "--out\u00ef", "--\u00e9"]      # characters outside ASCII, also right behind a name
     nbytes, nalpha = (1000, 12000) if q else (30000, 200000)
     for _ in range(nbytes):
         bs = bytes(rnd.randrange(256) for _ in range(rnd.randint(0, 64)))
@@ -124,9 +128,17 @@ def run(tier, wd):
     for c in opcases:
         cases.append({"id": len(cases), "prog": 0, "spec": opfam[c["si"]]["str"], "env": c["env"], "argv": c["argv"]})
         kinds.append("nested")
+    # (4) a command with 80 options (more than any machine word has bits), some of the late ones backed by the environment
+    big = BIG_PROG
+    bigstart = len(cases)
+    for spec in ("[OPTIONS] [X]", None, "[OPTIONS] X..."):
+        for env in ([], ["--o70"], ["--o03"], ["--o64", "--o79"], ["--o63", "--o65", "--o66"]):
+            for argv in ([], ["v"], ["--o01", "v"], ["--o69=w", "v", "--o71"], ["--o72", "--o75=1", "--o78=2", "--o01"]):
+                cases.append({"id": len(cases), "prog": 1, "spec": spec, "env": env, "argv": argv})
+                kinds.append("nested")
     pf = os.path.join(wd, "progs.json")
     with open(pf, "w") as f:
-        json.dump([p], f)
+        json.dump([p, big], f)
     results = core.run_harness(binpath, "exec", cases, wd, env={"HARNESS_PROGS": pf}, deadline_ms=3000)
     from vlib import refenum
     drift = 0
@@ -230,7 +242,7 @@ def replay(path, wd):
         return 1 if (r.get("hang") or r.get("crash")) else 0
     pf = os.path.join(wd, "progs.json")
     with open(pf, "w") as f:
-        json.dump([g.STD_PROG], f)
+        json.dump([g.STD_PROG, BIG_PROG], f)
     r = core.run_harness(binpath, "exec", [o["case"]], wd, env={"HARNESS_PROGS": pf}, shards=1, deadline_ms=3000)[0]
     print("replay: %s -> %s" % (json.dumps(o["case"]), json.dumps(r)))
     bad = r.get("hang") or r.get("crash") or r.get("panic") or (r.get("specerr") and o["kind"] == "nested")
